@@ -95,6 +95,36 @@ CHECKS = {
              'threads - the statement\'s carve-out made concrete. Trusted: vlib/histories.py templates.',
         technique='deterministic enumeration of interleavings + per-thread differential oracle against single-thread '
                   'baselines recorded at the feed boundary'),
+    'C09': dict(
+        category='exploration', design_ref='DESIGN.md section 4, C09',
+        text='Differential taint at the rendering boundary: each of the ~400 BSD/Mach-trap decoders of call shape is run '
+             'through the real pipeline on sentinel START words that are pairwise distinct under every accepted '
+             'rendering; numeric parameter tokens must be renderings of the word at their own position, react to no '
+             'other START word, no END word and no unrelated nested record; quoted parameters must be lookups; the '
+             'call part must be invariant under END records. No per-decoder expectation table is used.',
+        note='Trusted: vlib/render.py tokenizer, vlib/domain.py (enum-valued words stay in their enum). Accepted '
+             'renderings: signed/unsigned low 8/16/32/64 bits in decimal or hex.',
+        technique='differential taint oracle over rendered tokens (single-word replacement, END/nesting invariance)'),
+    'C10': dict(
+        category='exploration', design_ref='DESIGN.md section 4, C10',
+        text='Differential observation of the result part: for every decodable BSD syscall the END record alone is '
+             'varied (error word 0, every Darwin errno, unknown, aliased and huge codes; arbitrary return words), then '
+             'the START record and unrelated nested records alone. Error => exactly "errno: NAME(e)"/"errno: e" after '
+             'the unchanged call part and nothing else; success => no errno and only renderings of END words; '
+             'decoders whose text never reacts to the error word must be among the calls the statement excludes.',
+        note='Trusted: vlib/render.py, the declared exclusion list (compared with the observed one and printed in the '
+             'evidence). Names of error codes are C18\'s business; C10 checks the number.',
+        technique='differential result-part oracle (vary END only / START only / nesting only) on the real pipeline'),
+    'C17': dict(
+        category='exploration', design_ref='DESIGN.md section 4, C17',
+        text='Exhaustive over the finite tables: every registered decoder name must occur in the bundled code table '
+             '(own parser) under an id with clear qualifier bits, families must be disjoint, every X_nocancel needs its '
+             'base X bound to the same function. Dynamically, an event with the bundled id is fed for each of the 469 '
+             'names and a sys.monitoring PY_START monitor must see the registered function entered; twin renderings are '
+             'compared over many in-domain START/END tuples and lookups.',
+        note='Trusted: own trace.codes parser (vlib/ev.py), sys.monitoring. exhaustive=true refers to the tables, the '
+             'twin argument tuples are sampled.',
+        technique='exhaustive table audit + sys.monitoring reachability observation + twin differential rendering'),
 }
 
 PENDING_REASON = 'check not yet built in this session (design in DESIGN.md section 4); not claimed until it exists'
